@@ -534,6 +534,58 @@ def nx2diagram_correspondence(rep, trips, disagreements):
 
 
 # ------------------------------------------------------------------ the check
+def bubble_smoke(rep, di, directory, rng, count):
+    """Back-end smoke test on diagrams with bubbles (outside the layout model): bubbles whose
+    own domain / codomain have the same or a different length and the same or different objects
+    than the inside, nested and composed; both back-ends must render them."""
+    from discopy.monoidal import Ty, Box, Id
+    names = ["x", "y", "z"]
+
+    def ty(lo, hi):
+        return Ty(*[rng.choice(names) for _ in range(rng.randint(lo, hi))])
+    bad = 0
+    for k in range(count):
+        a, b = ty(0, 2), ty(0, 2)
+        inside = Box("f", a, b)
+        if rng.random() < 0.4:
+            c = ty(0, 2)
+            inside = inside >> Box("g", b, c)
+            b = c
+        r = rng.random()
+        if k == 0:
+            inside, a, b = Box("f", Ty("x"), Ty("y")), Ty("x"), Ty("y")
+            d = inside.bubble(dom=Ty("z"), cod=Ty("z"))         # F43
+        elif r < 0.25:
+            d = inside.bubble()
+        elif r < 0.6:       # same lengths, other objects
+            d = inside.bubble(dom=Ty(*[rng.choice(names) for _ in a]), cod=Ty(*[rng.choice(names) for _ in b]))
+        else:
+            d = inside.bubble(dom=ty(0, 3), cod=ty(0, 3))
+        if rng.random() < 0.3:
+            d = d.bubble() if rng.random() < 0.5 else d.bubble(dom=Ty(*[rng.choice(names) for _ in d.dom]))
+        if rng.random() < 0.4:
+            d = Box("h", ty(0, 1), d.dom) >> d
+        if rng.random() < 0.3:
+            d = Id(ty(0, 1)) @ d @ Id(ty(0, 1))
+        rep.count("stream:bubble-smoke")
+        try:
+            out = di.render(d, directory, "b%d" % k)
+            ok = out["png"] > 0 and bool(out["tikz"])
+            why = None if ok else "a back-end wrote nothing"
+        except Exception as exc:   # noqa
+            why = "drawing back-end raised %s: %s" % (type(exc).__name__, exc)
+        if why:
+            bad += 1
+            rep.count("oracle:bubble-smoke:FAIL")
+            if bad <= 3:
+                rep.violation("drawing a diagram with bubbles: " + why,
+                              {"stage": "back-ends", "diagram": repr(d)[:600],
+                               "replay": "import matplotlib; matplotlib.use('Agg'); from discopy.monoidal import *; "
+                                         "(%r).draw(path='/tmp/b.png')" % (d,)})
+        else:
+            rep.count("oracle:bubble-smoke:pass")
+
+
 def run(tier, seed):
     import draw_impl as di
     rep = Report("C20", tier, seed)
@@ -633,6 +685,8 @@ def run(tier, seed):
                 trips.append((p, round_trips(
                     rep, di, p, d, always_offset=int(u_off * 100) % 4 == 0, mono=u_off >= 0.5)))
     nx2diagram_correspondence(rep, trips, disagreements)
+    with tempfile.TemporaryDirectory(prefix="c20b-") as bubble_dir:
+        bubble_smoke(rep, di, bubble_dir, rng, 25 if quick else 300)
     rep.extra["backend_smoke"] = {
         "kind": "test, not proof", "rendered": state["rendered"], "failed": state["failed"],
         "skipped_empty": state["skipped_empty"], "skipped_budget": state["skipped_budget"],
